@@ -22,7 +22,7 @@ PY = {'gt': lambda a, b: a > b, 'ge': lambda a, b: a >= b, 'eq': lambda a, b: a 
 
 def floors(tier):
     return {'cases': 500, 'early_stops': 250, 'full_length_runs': 60, 'stops_gt': 25, 'stops_ge': 25, 'stops_eq': 10, 'stops_lt': 25, 'stops_le': 25,
-            'continued_cases': 60, 'two_stage_cases': 40, 'same_condition_object_reused': 15, 'sensor_reads_checked': 5000, 'set:nontrivial': 60, 'set:sensor_op_placement': 45}
+            'continued_cases': 60, 'two_stage_cases': 40, 'same_condition_object_reused': 15, 'condition_reused_after_reset_with_other_units': 40, 'sensor_reads_checked': 5000, 'set:nontrivial': 60, 'set:sensor_op_placement': 45}
 
 
 def n_cases(tier):
@@ -144,6 +144,82 @@ def two_stage(ctx, i):
         ctx.count('stops_' + op)
     else:
         ctx.count('full_length_runs')
+
+
+def reset_reuse(ctx, i):
+    """one StopCondition object used for a run, then -- after reset and re-applying the same initial conditions written in
+    *other units* -- for the rerun: the rerun must stop at the same instant with the same history (1e-9)"""
+    rng = ctx.rng('reuse', i)
+    case = {'kind': 'resetreuse', 'index': i}
+    spec = GEN.gen_scenario(rng, dict(p_continue=0.0, p_reset=0.0, n_lo=15, n_hi=60, p_currents=0.8, p_selflock=0.1, p_ic_zero=0.0, p_inplace_args=0.0))
+    try:
+        b0, r0, t0 = execute(spec)
+    except Exception as ex:
+        ctx.violation('harness:valid-scenario-rejected', {'exception': type(ex).__name__ + ': ' + str(ex)[:200]}, case)
+        return
+    if any(r['exc'] for r in r0):
+        return
+    sk = rng.choice(['enc', 'tach'])
+    idx = rng.randrange(len(spec['chain']) + 1)
+    ser, raw = t0.els[idx]['vars'][VAR[sk]], t0.els[idx]['units'][VAR[sk]]
+    if any(not math.isfinite(x) for x in ser):
+        return
+    lo, hi = min(ser), max(ser)
+    span = (hi - lo) or max(abs(hi), 1e-6)
+    op = rng.choice(['gt', 'ge', 'lt', 'le'])
+    fr = rng.uniform(0.15, 0.85)
+    u_sensed = raw[0][1]
+    # threshold written in the unit the sensor reads in during the first run
+    thr = GEN.Q(KIND[sk], (lo + (fr if op in ('gt', 'ge') else 1 - fr) * span) / SI.FACT[KIND[sk]][u_sensed], u_sensed)
+    st = truth_states(ser, raw, thr, op, KIND[sk])
+    k1 = next((k for k in range(1, t0.n) if st[k] != 'F'), None)
+    if k1 is None or st[k1] != 'T' or k1 >= t0.n - 1:
+        ctx.count('reset_reuse_skipped')
+        return
+    pu = rng.choice([u for u in SI.units('AngularPosition') if u != spec['ic']['pos']['u']])
+    su = rng.choice([u for u in SI.units('AngularSpeed') if u != spec['ic']['speed']['u']])
+    sp = copy.deepcopy(spec)
+    sp['stop'] = {'sensor': sk, 'elem': idx, 'op': op, 'thr': thr}
+    run = sp['schedule'][0]
+    sp['schedule'] = [run, {'op': 'reset'}, {'op': 'reapply', 'units': {'pos': pu, 'speed': su}}, copy.deepcopy(run)]
+    try:
+        b1 = B.build(sp)
+        b1.raw_capture = False
+        r1 = B.run_schedule(b1)
+        t2 = B.extract(b1)
+    except Exception as ex:
+        ctx.violation('C16:stopped-run-raised', {'exception': type(ex).__name__ + ': ' + str(ex)[:200]}, case)
+        return
+    if not b1.captures or any(r['exc'] for r in r1) or any(r['exc'] for r in b1.captures[0][1]):
+        ctx.violation('C16:stopped-run-raised', {'exception': [r['exc'] for r in r1] + [r['exc'] for r in (b1.captures[0][1] if b1.captures else [])]}, case)
+        return
+    t1 = b1.captures[0][0]
+    ctx.count('cases')
+    ctx.count('evaluations')
+    ctx.count('condition_reused_after_reset_with_other_units')
+    wit = {'stop': sp['stop'], 'first_true_index': k1, 'first_run_instants': t1.n, 'rerun_instants': t2.n, 'ic_units_first': [spec['ic']['pos']['u'], spec['ic']['speed']['u']],
+           'ic_units_rerun': [pu, su], 'baseline_instants': t0.n}
+    if t1.n != k1 + 1:
+        ctx.violation('C16:wrong-stop-instant', wit, case)
+        return
+    # the rerun: same physics, so the same stop instant unless the decision at k1 is within rounding distance of the threshold
+    near = any(x == 'N' for x in st[1:k1 + 1]) or abs(ser[k1] - GEN.qsi(thr)) <= 1e-6 * max(abs(ser[k1]), abs(GEN.qsi(thr))) or \
+        abs(ser[k1 - 1] - GEN.qsi(thr)) <= 1e-6 * max(abs(ser[k1 - 1]), abs(GEN.qsi(thr)))
+    if near:
+        ctx.count('near_threshold')
+        return
+    if t2.n != t1.n:
+        ctx.violation('C16:reused-condition-stops-at-another-instant-after-reset', wit, case)
+        return
+    for ea, eb in zip(t1.els, t2.els):
+        for v in ea['vars']:
+            sa_, sb_ = ea['vars'][v], eb['vars'].get(v, [])
+            sc = max([abs(x) for x in sa_ if math.isfinite(x)] or [0.0])
+            if len(sb_) != len(sa_) or any(not (x == y or abs(x - y) <= 1e-9 * max(abs(x), abs(y)) + 1e-9 * sc or (x != x and y != y)) for x, y in zip(sa_, sb_)):
+                ctx.violation('C16:rerun-history-differs', dict(wit, element=ea['name'], variable=v), case)
+                return
+    ctx.count('early_stops')
+    ctx.count('stops_' + op)
 
 
 def one(ctx, i):
@@ -294,7 +370,9 @@ def shard(ctx):
         one(ctx, i)
     for i in ctx.my_cases(n_cases(ctx.tier) // 4):
         two_stage(ctx, i)
+    for i in ctx.my_cases(n_cases(ctx.tier) // 5):
+        reset_reuse(ctx, i)
 
 
 def replay(ctx, case):
-    (two_stage if case.get('kind') == 'twostage' else one)(ctx, case['index'])
+    {'twostage': two_stage, 'resetreuse': reset_reuse}.get(case.get('kind'), one)(ctx, case['index'])
